@@ -388,6 +388,9 @@ Proof. intros H. rewrite Zmod_odd in H. destruct (Z.odd z); [discriminate|reflex
 Lemma odd_of_mod2_1 z : z mod 2 = 1 -> Z.odd z = true.
 Proof. intros H. rewrite Zmod_odd in H. destruct (Z.odd z); [reflexivity|discriminate]. Qed.
 
+Lemma b2z_mul a b : Z.b2z a * Z.b2z b = Z.b2z (a && b).
+Proof. now destruct a, b. Qed.
+
 Definition adj (s q : idx) : bool := (Z.abs (fst s - fst q) + Z.abs (snd s - snd q) =? 1).
 Lemma cnt_nbrs s q : cnt s (plaq_sites q) = Z.b2z (adj s q).
 Proof. destruct s as [a b], q as [r c]. unfold plaq_sites, adj, cnt, zeqb2. cbn [fold_right fst snd]. lia. Qed.
@@ -404,8 +407,524 @@ Proof.
   intros [Hp1 Hp2] [Hq1 Hq2] Hip Hiq. apply odd_of_mod2_0. rewrite pairs_filter.
   destruct p as [r c], q as [r' c'].
   change (plaq_sites (r, c)) with [(r - 1, c); (r + 1, c); (r, c - 1); (r, c + 1)]. cbn [fold_right]. rewrite !cnt_plaq.
+  rewrite !b2z_mul, !andb_assoc, !andb_diag.
   rewrite !inb_unfold in *. unfold adj. cbn [fst snd] in *.
   assert (Hd : (r' = r + 1 \/ r' = r - 1 \/ (r' <> r + 1 /\ r' <> r - 1))) by lia.
   assert (Hd2 : (c' = c + 1 \/ c' = c - 1 \/ (c' <> c + 1 /\ c' <> c - 1))) by lia.
   destruct Hd as [-> | [-> | Hd]]; destruct Hd2 as [-> | [-> | Hd2]]; lia.
+Qed.
+
+(* ---- the logical operators' site lists ---- *)
+Lemma lx_sites_eq : logical_x_sites rows cols = map (fun i => (2 * Z.of_nat i, 2 * cols - 2)) (seq 0 (Z.to_nat rows)).
+Proof.
+  unfold logical_x_sites, planar_bounds, range2. rewrite map_map.
+  replace ((2 * rows - 2 + 1 + 1) / 2) with rows by lia. reflexivity.
+Qed.
+Lemma lz_sites_eq : logical_z_sites rows cols = map (fun i => (2 * rows - 2, 2 * Z.of_nat i)) (seq 0 (Z.to_nat cols)).
+Proof.
+  unfold logical_z_sites, planar_bounds, range2. rewrite map_map.
+  replace ((2 * cols - 2 + 1 + 1) / 2) with cols by lia. reflexivity.
+Qed.
+Lemma cnt_col s C m : cnt s (map (fun i => (2 * Z.of_nat i, C)) (seq 0 m)) =
+  Z.b2z ((snd s =? C) && (fst s mod 2 =? 0) && (0 <=? fst s) && (fst s <? 2 * Z.of_nat m)).
+Proof.
+  induction m as [|m IH]; [cbn; lia|]. rewrite seq_S, map_app, cnt_app, IH. cbn [map Nat.add]. rewrite cnt_cons.
+  destruct s as [a b]. unfold zeqb2, cnt. cbn [fst snd fold_right]. lia.
+Qed.
+Lemma cnt_row s R m : cnt s (map (fun i => (R, 2 * Z.of_nat i)) (seq 0 m)) =
+  Z.b2z ((fst s =? R) && (snd s mod 2 =? 0) && (0 <=? snd s) && (snd s <? 2 * Z.of_nat m)).
+Proof.
+  induction m as [|m IH]; [cbn; lia|]. rewrite seq_S, map_app, cnt_app, IH. cbn [map Nat.add]. rewrite cnt_cons.
+  destruct s as [a b]. unfold zeqb2, cnt. cbn [fst snd fold_right]. lia.
+Qed.
+Lemma cnt_lx s : cnt s (logical_x_sites rows cols) =
+  Z.b2z ((snd s =? 2 * cols - 2) && (fst s mod 2 =? 0) && (0 <=? fst s) && (fst s <? 2 * rows)).
+Proof. rewrite lx_sites_eq, cnt_col, Z2Nat.id by lia. reflexivity. Qed.
+Lemma cnt_lz s : cnt s (logical_z_sites rows cols) =
+  Z.b2z ((fst s =? 2 * rows - 2) && (snd s mod 2 =? 0) && (0 <=? snd s) && (snd s <? 2 * cols)).
+Proof. rewrite lz_sites_eq, cnt_row, Z2Nat.id by lia. reflexivity. Qed.
+
+Lemma plaq_lx_even p : is_pp p -> inb p = true ->
+  Z.odd (pairs (filter inb (plaq_sites p)) (filter inb (logical_x_sites rows cols))) = false.
+Proof.
+  intros [Hp1 Hp2] Hip. apply odd_of_mod2_0. rewrite pairs_filter. destruct p as [r c].
+  change (plaq_sites (r, c)) with [(r - 1, c); (r + 1, c); (r, c - 1); (r, c + 1)]. cbn [fold_right].
+  rewrite !cnt_filter, !cnt_lx, !b2z_mul, !andb_assoc, !andb_diag.
+  rewrite !inb_unfold in *. cbn [fst snd] in *. lia.
+Qed.
+Lemma plaq_lz_even q : is_dp q -> inb q = true ->
+  Z.odd (pairs (filter inb (plaq_sites q)) (filter inb (logical_z_sites rows cols))) = false.
+Proof.
+  intros [Hq1 Hq2] Hiq. apply odd_of_mod2_0. rewrite pairs_filter. destruct q as [r c].
+  change (plaq_sites (r, c)) with [(r - 1, c); (r + 1, c); (r, c - 1); (r, c + 1)]. cbn [fold_right].
+  rewrite !cnt_filter, !cnt_lz, !b2z_mul, !andb_assoc, !andb_diag.
+  rewrite !inb_unfold in *. cbn [fst snd] in *. lia.
+Qed.
+
+Lemma pairs_zero A B : (forall a, In a A -> cnt a B = 0) -> pairs A B = 0.
+Proof. induction A as [|a A IH]; intros H; [reflexivity|]. rewrite pairs_cons, H, IH by (cbn; auto; intros; apply H; cbn; auto). reflexivity. Qed.
+
+Lemma lx_lz_odd : Z.odd (pairs (filter inb (logical_x_sites rows cols)) (filter inb (logical_z_sites rows cols))) = true.
+Proof.
+  rewrite lx_sites_eq. replace (Z.to_nat rows) with (S (Z.to_nat (rows - 1))) by lia.
+  rewrite seq_S, map_app, filter_app, pairs_app. cbn [map Nat.add].
+  rewrite pairs_zero.
+  - replace (Z.of_nat (Z.to_nat (rows - 1))) with (rows - 1) by lia.
+    assert (Hin : inb (2 * (rows - 1), 2 * cols - 2) = true) by (rewrite inb_unfold; cbn [fst snd]; lia).
+    cbn [filter]. rewrite Hin, pairs_cons. cbn [pairs fold_right]. rewrite cnt_filter, cnt_lz, Hin. cbn [fst snd].
+    apply odd_of_mod2_1. lia.
+  - intros a Ha. apply filter_In in Ha. destruct Ha as [Ha _]. apply in_map_iff in Ha. destruct Ha as (i & <- & Hi).
+    apply in_seq in Hi. rewrite cnt_filter, cnt_lz. cbn [fst snd]. lia.
+Qed.
+
+(* ================================================================== *)
+(** * Part D — the code is valid for every size                        *)
+(* ================================================================== *)
+Lemma in_ndindex2 R C r c : In (r, c) (ndindex2 R C) <-> 0 <= r < R /\ 0 <= c < C.
+Proof.
+  unfold ndindex2. rewrite in_flat_map. split.
+  - intros (x & Hx & H). apply in_map_iff in H. destruct H as (y & Heq & Hy). injection Heq as <- <-.
+    apply in_seq in Hx, Hy. lia.
+  - intros [H1 H2]. exists (Z.to_nat r). split; [apply in_seq; lia|]. apply in_map_iff. exists (Z.to_nat c).
+    split; [f_equal; lia|apply in_seq; lia].
+Qed.
+
+Lemma in_plaquette_indices q : In q (plaquette_indices rows cols) <-> planar_is_plaquette q = true /\ inb q = true.
+Proof.
+  unfold plaquette_indices. change (planar_bounds rows cols) with (2 * rows - 2, 2 * cols - 2).
+  rewrite in_app_iff, !filter_In. destruct q as [r c]. rewrite in_ndindex2, inb_unfold. cbn [fst snd].
+  destruct (planar_is_primal (r, c)), (planar_is_plaquette (r, c)); cbn [negb]; intuition lia.
+Qed.
+
+Lemma pp_of_primal q : planar_is_plaquette q = true -> planar_is_primal q = true -> is_pp q.
+Proof. rewrite plaq_unfold, primal_unfold. unfold is_pp. destruct q as [r c]. cbn [fst snd]. lia. Qed.
+Lemma dp_of_dual q : planar_is_plaquette q = true -> planar_is_primal q = false -> is_dp q.
+Proof. rewrite plaq_unfold, primal_unfold. unfold is_dp. destruct q as [r c]. cbn [fst snd]. lia. Qed.
+
+Lemma plaq_sites_sites q : planar_is_plaquette q = true -> all_sites (plaq_sites q).
+Proof.
+  intros Hq a Ha. destruct q as [r c]. rewrite plaq_unfold in Hq. cbn [fst snd] in Hq.
+  cbn in Ha. rewrite site_unfold.
+  destruct Ha as [<-|[<-|[<-|[<-|[]]]]]; cbn [fst snd]; lia.
+Qed.
+Lemma lx_sites_sites : all_sites (logical_x_sites rows cols).
+Proof.
+  intros a Ha. rewrite lx_sites_eq in Ha. apply in_map_iff in Ha. destruct Ha as (i & <- & _).
+  rewrite site_unfold. cbn [fst snd]. lia.
+Qed.
+Lemma lz_sites_sites : all_sites (logical_z_sites rows cols).
+Proof.
+  intros a Ha. rewrite lz_sites_eq in Ha. apply in_map_iff in Ha. destruct Ha as (i & <- & _).
+  rewrite site_unfold. cbn [fst snd]. lia.
+Qed.
+
+Theorem bsp_sop opA A opB B : all_sites A -> all_sites B ->
+  bsp (sop opA A) (sop opB B) =
+  let P := Z.odd (pairs (filter inb A) (filter inb B)) in
+  xorb (zbit opA && xbit opB && P) (xbit opA && zbit opB && P).
+Proof.
+  intros HA HB. change (sop opA A) with (gop inb fl N opA A). change (sop opB B) with (gop inb fl N opB B).
+  rewrite bsp_gop by now apply klt_sites. now rewrite ovk_pairs.
+Qed.
+Lemma sop_length op L : length (sop op L) = (N + N)%nat.
+Proof. rewrite sop_gop. apply gop_length. Qed.
+Lemma bsp_sop_sym opA A opB B : bsp (sop opA A) (sop opB B) = bsp (sop opB B) (sop opA A).
+Proof. apply bsp_sym; [now rewrite !sop_length|rewrite sop_gop; apply gop_even]. Qed.
+
+Definition stab (q : idx) : bsf := sop (plaq_op q) (plaq_sites q).
+Definition lxop : bsf := sop pX (logical_x_sites rows cols).
+Definition lzop : bsf := sop pZ (logical_z_sites rows cols).
+Lemma stabilizers_eq : stabilizers rows cols = map stab (plaquette_indices rows cols).
+Proof. reflexivity. Qed.
+Lemma code_eq : planar_code rows cols = mkCode (map stab (plaquette_indices rows cols)) [lxop] [lzop].
+Proof. reflexivity. Qed.
+
+Lemma stab_commute_pd p q : In p (plaquette_indices rows cols) -> In q (plaquette_indices rows cols) ->
+  planar_is_primal p = true -> planar_is_primal q = false -> bsp (stab p) (stab q) = false.
+Proof.
+  intros Hp Hq Pp Pq. apply in_plaquette_indices in Hp, Hq. destruct Hp as [Hp1 Hp2], Hq as [Hq1 Hq2].
+  unfold stab, plaq_op. rewrite Pp, Pq. rewrite bsp_sop by now apply plaq_sites_sites. cbv zeta. cbn [xbit zbit andb].
+  rewrite plaq_overlap_even; auto using pp_of_primal, dp_of_dual.
+Qed.
+
+Theorem planar_stabilizers_commute p q :
+  In p (plaquette_indices rows cols) -> In q (plaquette_indices rows cols) -> bsp (stab p) (stab q) = false.
+Proof.
+  intros Hp Hq. destruct (planar_is_primal p) eqn:Pp, (planar_is_primal q) eqn:Pq.
+  - pose proof (proj1 (in_plaquette_indices p) Hp) as [Hp1 _]. pose proof (proj1 (in_plaquette_indices q) Hq) as [Hq1 _].
+    unfold stab, plaq_op. rewrite Pp, Pq, bsp_sop by now apply plaq_sites_sites. reflexivity.
+  - now apply stab_commute_pd.
+  - unfold stab. rewrite bsp_sop_sym. now apply stab_commute_pd.
+  - pose proof (proj1 (in_plaquette_indices p) Hp) as [Hp1 _]. pose proof (proj1 (in_plaquette_indices q) Hq) as [Hq1 _].
+    unfold stab, plaq_op. rewrite Pp, Pq, bsp_sop by now apply plaq_sites_sites. reflexivity.
+Qed.
+
+Theorem planar_stabilizer_logical_x p : In p (plaquette_indices rows cols) -> bsp (stab p) lxop = false.
+Proof.
+  intros Hp. pose proof (proj1 (in_plaquette_indices p) Hp) as [Hp1 Hp2]. unfold stab, lxop, plaq_op.
+  rewrite bsp_sop by (auto using plaq_sites_sites, lx_sites_sites). cbv zeta.
+  destruct (planar_is_primal p) eqn:Pp; cbn [xbit zbit andb]; [|reflexivity].
+  rewrite plaq_lx_even; auto using pp_of_primal.
+Qed.
+Theorem planar_stabilizer_logical_z p : In p (plaquette_indices rows cols) -> bsp (stab p) lzop = false.
+Proof.
+  intros Hp. pose proof (proj1 (in_plaquette_indices p) Hp) as [Hp1 Hp2]. unfold stab, lzop, plaq_op.
+  rewrite bsp_sop by (auto using plaq_sites_sites, lz_sites_sites). cbv zeta.
+  destruct (planar_is_primal p) eqn:Pp; cbn [xbit zbit andb]; [reflexivity|].
+  rewrite plaq_lz_even; auto using dp_of_dual.
+Qed.
+Theorem planar_logicals_anticommute : bsp lxop lzop = true /\ bsp lzop lxop = true /\ bsp lxop lxop = false /\ bsp lzop lzop = false.
+Proof.
+  assert (H : bsp lxop lzop = true).
+  { unfold lxop, lzop. rewrite bsp_sop by (auto using lx_sites_sites, lz_sites_sites). cbv zeta. cbn [xbit zbit andb].
+    now rewrite lx_lz_odd. }
+  split; [exact H|]. split; [unfold lxop, lzop in *; now rewrite bsp_sop_sym|].
+  unfold lxop, lzop. rewrite !bsp_sop by (auto using lx_sites_sites, lz_sites_sites). cbv zeta. cbn [xbit zbit andb].
+  split; reflexivity.
+Qed.
+
+Theorem planar_valid_all : validate (planar_code rows cols) = VOk.
+Proof.
+  apply validate_iff_canonical; [reflexivity|]. rewrite code_eq. cbn [stabs lxs lzs logicals]. split; [|split].
+  - intros s s' Hs Hs'. apply in_map_iff in Hs, Hs'. destruct Hs as (p & <- & Hp), Hs' as (q & <- & Hq).
+    now apply planar_stabilizers_commute.
+  - intros s l Hs Hl. apply in_map_iff in Hs. destruct Hs as (p & <- & Hp).
+    cbn in Hl. destruct Hl as [<-|[<-|[]]]; [now apply planar_stabilizer_logical_x|now apply planar_stabilizer_logical_z].
+  - intros i j Hi Hj. cbn in Hi, Hj. assert (i = 0%nat) by lia. assert (j = 0%nat) by lia. subst. cbn [nth Nat.eqb].
+    destruct planar_logicals_anticommute as (H1 & H2 & H3 & H4). auto.
+Qed.
+
+(* ================================================================== *)
+(** * Part E — paths                                                   *)
+(* ================================================================== *)
+Definition wsum (L : list idx) (q : idx) : Z :=
+  fold_right (fun a acc => Z.b2z (inb a) * cnt a (filter inb (plaq_sites q)) + acc) 0 L.
+Lemma pairs_wsum L q : pairs (filter inb L) (filter inb (plaq_sites q)) = wsum L q.
+Proof. apply pairs_filter. Qed.
+Lemma wsum_app L1 L2 q : wsum (L1 ++ L2) q = wsum L1 q + wsum L2 q.
+Proof. unfold wsum. induction L1 as [|a L IH]; cbn [app fold_right]; [lia|]. rewrite IH. lia. Qed.
+Lemma wsum_cons a L q : wsum (a :: L) q = Z.b2z (inb a) * cnt a (filter inb (plaq_sites q)) + wsum L q.
+Proof. reflexivity. Qed.
+
+Definition dir (d : idx) : Prop := d = (-1, 0) \/ d = (1, 0) \/ d = (0, -1) \/ d = (0, 1).
+(* plaquette-type index; two indices of the same lattice; the strip in which real and virtual plaquettes live *)
+Definition ptype (x : idx) : Prop := (fst x + snd x) mod 2 = 1.
+Definition same_type (x y : idx) : Prop := fst x mod 2 = fst y mod 2 /\ snd x mod 2 = snd y mod 2.
+Definition instrip (x : idx) : Prop :=
+  (fst x mod 2 = 1 -> 0 <= snd x <= 2 * cols - 2) /\ (fst x mod 2 = 0 -> 0 <= fst x <= 2 * rows - 2).
+
+Lemma walk_end_eq k : forall d cur,
+  walk_end k d cur = (fst cur + 2 * Z.of_nat k * fst d, snd cur + 2 * Z.of_nat k * snd d).
+Proof.
+  induction k as [|k IH]; intros d cur.
+  - cbn [walk_end]. change (Z.of_nat 0) with 0. destruct cur as [x y]. cbn [fst snd]. f_equal; lia.
+  - cbn [walk_end]. rewrite IH. cbn [fst snd]. f_equal; lia.
+Qed.
+
+Lemma step_sem r c dr dc q : dir (dr, dc) -> ptype (r, c) -> ptype q -> same_type q (r, c) -> inb q = true ->
+  instrip (r, c) -> instrip (r + 2 * dr, c + 2 * dc) ->
+  Z.b2z (inb (r + dr, c + dc)) * cnt (r + dr, c + dc) (filter inb (plaq_sites q)) =
+  Z.b2z (zeqb2 q (r, c)) + Z.b2z (zeqb2 q (r + 2 * dr, c + 2 * dc)).
+Proof.
+  intros Hd Hpc Hq [Hs1 Hs2] Hi [Ha1 Ha2] [Hb1 Hb2]. rewrite cnt_plaq, !b2z_mul, andb_assoc, andb_diag.
+  destruct q as [qr qc]. unfold ptype, adj, zeqb2 in *. rewrite !inb_unfold in *. cbn [fst snd] in *.
+  destruct Hd as [Hd|[Hd|[Hd|Hd]]]; injection Hd as -> ->.
+  - assert (Hcase : qc = c \/ qc <> c) by lia. destruct Hcase as [-> | Hne]; [|lia].
+    assert (Hc2 : qr = r \/ qr = r - 2 \/ (qr <> r /\ qr <> r - 2)) by lia. destruct Hc2 as [-> | [-> | Hc2]]; lia.
+  - assert (Hcase : qc = c \/ qc <> c) by lia. destruct Hcase as [-> | Hne]; [|lia].
+    assert (Hc2 : qr = r \/ qr = r + 2 \/ (qr <> r /\ qr <> r + 2)) by lia. destruct Hc2 as [-> | [-> | Hc2]]; lia.
+  - assert (Hcase : qr = r \/ qr <> r) by lia. destruct Hcase as [-> | Hne]; [|lia].
+    assert (Hc2 : qc = c \/ qc = c - 2 \/ (qc <> c /\ qc <> c - 2)) by lia. destruct Hc2 as [-> | [-> | Hc2]]; lia.
+  - assert (Hcase : qr = r \/ qr <> r) by lia. destruct Hcase as [-> | Hne]; [|lia].
+    assert (Hc2 : qc = c \/ qc = c + 2 \/ (qc <> c /\ qc <> c + 2)) by lia. destruct Hc2 as [-> | [-> | Hc2]]; lia.
+Qed.
+
+Lemma walk_sem k : forall r c dr dc q, dir (dr, dc) -> ptype (r, c) -> ptype q -> same_type q (r, c) -> inb q = true ->
+  instrip (r, c) -> instrip (walk_end k (dr, dc) (r, c)) ->
+  (wsum (walk k (dr, dc) (r, c)) q) mod 2 =
+  (Z.b2z (zeqb2 q (r, c)) + Z.b2z (zeqb2 q (walk_end k (dr, dc) (r, c)))) mod 2.
+Proof.
+  induction k as [|k IH]; intros r c dr dc q Hd Hpc Hq Hs Hi Ha Hb.
+  - cbn [walk walk_end wsum fold_right]. destruct (zeqb2 q (r, c)); reflexivity.
+  - cbn [walk walk_end fst snd]. rewrite wsum_cons.
+    assert (Hmid : instrip (r + 2 * dr, c + 2 * dc)).
+    { rewrite walk_end_eq in Hb. unfold instrip in *. cbn [fst snd] in *.
+      destruct Hd as [Hd|[Hd|[Hd|Hd]]]; injection Hd as -> ->; lia. }
+    rewrite (step_sem r c dr dc q Hd Hpc Hq Hs Hi Ha Hmid).
+    assert (Hpc' : ptype (r + 2 * dr, c + 2 * dc)) by (unfold ptype in *; cbn [fst snd] in *; lia).
+    assert (Hs' : same_type q (r + 2 * dr, c + 2 * dc)) by (unfold same_type in *; cbn [fst snd] in *; lia).
+    specialize (IH (r + 2 * dr) (c + 2 * dc) dr dc q Hd Hpc' Hq Hs' Hi Hmid Hb).
+    set (A := Z.b2z (zeqb2 q (r, c))) in *. set (B := Z.b2z (zeqb2 q (r + 2 * dr, c + 2 * dc))) in *.
+    set (C := Z.b2z (zeqb2 q (walk_end k (dr, dc) (r + 2 * dr, c + 2 * dc)))) in *.
+    set (W := wsum (walk k (dr, dc) (r + 2 * dr, c + 2 * dc)) q) in *. clearbody A B C W. lia.
+Qed.
+
+Lemma odd_xorb x A B : x mod 2 = (Z.b2z A + Z.b2z B) mod 2 -> Z.odd x = xorb A B.
+Proof. intros H. rewrite Zmod_odd in H. destruct A, B, (Z.odd x); cbn in H; try reflexivity; discriminate. Qed.
+
+(* what planar_translation returns on two same-type plaquette indices *)
+Lemma translation_cases a b : ptype a -> ptype b -> same_type a b ->
+  exists rs cs, planar_translation rows cols a b = Some (rs, cs) /\
+    ((inb a = false /\ inb b = false /\ rs = 0 /\ cs = 0) \/
+     ((inb a = true \/ inb b = true) /\ fst b = fst a + 2 * rs /\ snd b = snd a + 2 * cs)).
+Proof.
+  intros Ha Hb [Hs1 Hs2]. destruct a as [ar ac], b as [br bc]. unfold ptype in *. cbn [fst snd] in *.
+  unfold planar_translation.
+  assert (Hpa : planar_is_plaquette (ar, ac) = true) by (rewrite plaq_unfold; cbn [fst snd]; lia).
+  assert (Hpb : planar_is_plaquette (br, bc) = true) by (rewrite plaq_unfold; cbn [fst snd]; lia).
+  assert (Hpp : Bool.eqb (planar_is_primal (ar, ac)) (planar_is_primal (br, bc)) = true).
+  { rewrite !primal_unfold. cbn [fst snd]. apply eqb_true_iff. lia. }
+  rewrite Hpa, Hpb, Hpp. cbn [negb].
+  destruct (planar_is_in_bounds rows cols (ar, ac)) eqn:Ea, (planar_is_in_bounds rows cols (br, bc)) eqn:Eb; cbn [negb andb].
+  - exists ((br - ar) / 2), ((bc - ac) / 2). split; [reflexivity|]. right. cbn [fst snd]. lia.
+  - exists ((br - ar) / 2), ((bc - ac) / 2). split; [reflexivity|]. right. cbn [fst snd]. lia.
+  - exists ((br - ar) / 2), ((bc - ac) / 2). split; [reflexivity|]. right. cbn [fst snd]. lia.
+  - exists 0, 0. split; [reflexivity|]. left. auto.
+Qed.
+
+Lemma path_sites_wsum a rs cs q : ptype a -> ptype q -> same_type q a -> inb q = true ->
+  instrip a -> instrip (fst a + 2 * rs, snd a + 2 * cs) ->
+  (wsum (path_sites a rs cs) q) mod 2 =
+  (Z.b2z (zeqb2 q a) + Z.b2z (zeqb2 q (fst a + 2 * rs, snd a + 2 * cs))) mod 2.
+Proof.
+  intros Ha Hq Hs Hi Hsa Hsb. destruct a as [r c]. cbn [fst snd] in *. unfold path_sites.
+  rewrite !wsum_app.
+  set (kn := Z.to_nat (- rs)). set (ks := Z.to_nat rs). set (kw := Z.to_nat (- cs)). set (ke := Z.to_nat cs).
+  set (c1 := walk_end kn (-1, 0) (r, c)). set (c2 := walk_end ks (1, 0) c1). set (c3 := walk_end kw (0, -1) c2).
+  assert (E1 : c1 = (r - 2 * Z.of_nat kn, c)) by (unfold c1; rewrite walk_end_eq; cbn [fst snd]; f_equal; lia).
+  assert (E2 : c2 = (r + 2 * rs, c)) by (unfold c2; rewrite walk_end_eq, E1; cbn [fst snd]; f_equal; lia).
+  assert (E3 : c3 = (r + 2 * rs, c - 2 * Z.of_nat kw)) by (unfold c3; rewrite walk_end_eq, E2; cbn [fst snd]; f_equal; lia).
+  assert (E4 : walk_end ke (0, 1) c3 = (r + 2 * rs, c + 2 * cs)) by (rewrite walk_end_eq, E3; cbn [fst snd]; f_equal; lia).
+  assert (T1 : ptype c1 /\ same_type q c1 /\ instrip c1).
+  { rewrite E1. unfold ptype, same_type, instrip in *. cbn [fst snd] in *. lia. }
+  assert (T2 : ptype c2 /\ same_type q c2 /\ instrip c2).
+  { rewrite E2. unfold ptype, same_type, instrip in *. cbn [fst snd] in *. lia. }
+  assert (T3 : ptype c3 /\ same_type q c3 /\ instrip c3).
+  { rewrite E3. unfold ptype, same_type, instrip in *. cbn [fst snd] in *. lia. }
+  destruct T1 as (P1 & S1 & I1), T2 as (P2 & S2 & I2), T3 as (P3 & S3 & I3).
+  pose proof (walk_sem kn r c (-1) 0 q ltac:(unfold dir; auto) Ha Hq Hs Hi Hsa I1) as W1. fold c1 in W1.
+  destruct c1 as [r1 k1]. pose proof (walk_sem ks r1 k1 1 0 q ltac:(unfold dir; auto) P1 Hq S1 Hi I1 I2) as W2. fold c2 in W2.
+  destruct c2 as [r2 k2]. pose proof (walk_sem kw r2 k2 0 (-1) q ltac:(unfold dir; auto) P2 Hq S2 Hi I2 I3) as W3. fold c3 in W3.
+  destruct c3 as [r3 k3].
+  assert (I4 : instrip (walk_end ke (0, 1) (r3, k3))) by (rewrite E4; exact Hsb).
+  pose proof (walk_sem ke r3 k3 0 1 q ltac:(unfold dir; auto) P3 Hq S3 Hi I3 I4) as W4. rewrite E4 in W4.
+  set (A0 := Z.b2z (zeqb2 q (r, c))) in *. set (A1 := Z.b2z (zeqb2 q (r1, k1))) in *.
+  set (A2 := Z.b2z (zeqb2 q (r2, k2))) in *. set (A3 := Z.b2z (zeqb2 q (r3, k3))) in *.
+  set (A4 := Z.b2z (zeqb2 q (r + 2 * rs, c + 2 * cs))) in *.
+  set (X1 := wsum (walk kn (-1, 0) (r, c)) q) in *. set (X2 := wsum (walk ks (1, 0) (r1, k1)) q) in *.
+  set (X3 := wsum (walk kw (0, -1) (r2, k2)) q) in *. set (X4 := wsum (walk ke (0, 1) (r3, k3)) q) in *.
+  clearbody A0 A1 A2 A3 A4 X1 X2 X3 X4. lia.
+Qed.
+
+Lemma walk_sites k : forall d cur, dir d -> ptype cur -> all_sites (walk k d cur).
+Proof.
+  induction k as [|k IH]; intros d cur Hd Hp a Ha; [destruct Ha|]. cbn [walk] in Ha. destruct Ha as [<-|Ha].
+  - rewrite site_unfold. unfold ptype in Hp. cbn [fst snd]. destruct Hd as [-> | [-> | [-> | ->]]]; cbn [fst snd]; lia.
+  - apply (IH d _ Hd) in Ha; auto. unfold ptype in *. cbn [fst snd]. destruct Hd as [-> | [-> | [-> | ->]]]; cbn [fst snd]; lia.
+Qed.
+Lemma walk_end_ptype k d cur : dir d -> ptype cur -> ptype (walk_end k d cur).
+Proof.
+  intros Hd Hp. rewrite walk_end_eq. unfold ptype in *. cbn [fst snd]. destruct Hd as [-> | [-> | [-> | ->]]]; cbn [fst snd]; lia.
+Qed.
+Lemma all_sites_app A B : all_sites A -> all_sites B -> all_sites (A ++ B).
+Proof. intros HA HB a Ha. apply in_app_iff in Ha. destruct Ha; auto. Qed.
+Lemma path_sites_sites a rs cs : ptype a -> all_sites (path_sites a rs cs).
+Proof.
+  intros Ha. unfold path_sites.
+  assert (D1 : dir (-1, 0)) by (unfold dir; auto). assert (D2 : dir (1, 0)) by (unfold dir; auto).
+  assert (D3 : dir (0, -1)) by (unfold dir; auto). assert (D4 : dir (0, 1)) by (unfold dir; auto).
+  repeat apply all_sites_app; apply walk_sites; auto using walk_end_ptype.
+Qed.
+Lemma walk_length k : forall d cur, length (walk k d cur) = k.
+Proof. induction k as [|k IH]; intros d cur; cbn; auto. Qed.
+Lemma path_sites_length a rs cs : Z.of_nat (length (path_sites a rs cs)) = Z.abs rs + Z.abs cs.
+Proof. unfold path_sites. rewrite !app_length, !walk_length. lia. Qed.
+
+Lemma ptype_plaquette a : ptype a <-> planar_is_plaquette a = true.
+Proof. rewrite plaq_unfold. unfold ptype. lia. Qed.
+Lemma primal_of_ptype a : ptype a -> planar_is_primal a = (fst a mod 2 =? 1).
+Proof. intros Ha. rewrite primal_unfold. unfold ptype in Ha. lia. Qed.
+
+Lemma zeqb2_inb_neq q a : inb q = true -> inb a = false -> zeqb2 q a = false.
+Proof. intros Hq Ha. destruct (zeqb2 q a) eqn:E; [apply zeqb2_eq in E; congruence|reflexivity]. Qed.
+
+Lemma path_overlap a b q rs cs : ptype a -> instrip a -> instrip b -> ptype q -> same_type q a -> inb q = true ->
+  ((inb a = false /\ inb b = false /\ rs = 0 /\ cs = 0) \/
+   ((inb a = true \/ inb b = true) /\ fst b = fst a + 2 * rs /\ snd b = snd a + 2 * cs)) ->
+  Z.odd (wsum (path_sites a rs cs) q) = xorb (zeqb2 q a) (zeqb2 q b).
+Proof.
+  intros Ha Hsa Hsb Hq Hqa Hiq Hcase. destruct Hcase as [(Hia & Hib & -> & ->)|(Hor & H1 & H2)].
+  - rewrite (zeqb2_inb_neq q a Hiq Hia), (zeqb2_inb_neq q b Hiq Hib). reflexivity.
+  - assert (Eb : (fst a + 2 * rs, snd a + 2 * cs) = b) by (destruct b; cbn [fst snd] in *; f_equal; lia).
+    apply odd_xorb. rewrite <- Eb. apply path_sites_wsum; auto. now rewrite Eb.
+Qed.
+
+(* C15, one syndrome bit: the path between two same-type plaquette indices of the strip (real or virtual, any
+   distance outside the lattice along the matching boundary) anticommutes with the stabilizer of plaquette q
+   exactly when q is one of its two ends (and never when the ends coincide) *)
+Theorem planar_path_syndrome_bit a b q :
+  ptype a -> ptype b -> same_type a b -> instrip a -> instrip b -> In q (plaquette_indices rows cols) ->
+  exists p, path rows cols a b (new_pauli rows cols) = Some p /\
+    bsp (p_to_bsf p) (stab q) = xorb (zeqb2 q a) (zeqb2 q b).
+Proof.
+  intros Ha Hb Hab Hsa Hsb Hq. apply in_plaquette_indices in Hq. destruct Hq as [Hq1 Hq2].
+  destruct (translation_cases a b Ha Hb Hab) as (rs & cs & Ht & Hcase).
+  unfold path. rewrite Ht. eexists. split; [reflexivity|].
+  change (p_to_bsf (sites rows cols (path_op a) (path_sites a rs cs) (new_pauli rows cols)))
+    with (sop (path_op a) (path_sites a rs cs)).
+  unfold stab. rewrite bsp_sop by (auto using path_sites_sites, plaq_sites_sites). cbv zeta.
+  pose proof (proj2 (ptype_plaquette q) Hq1) as Hpq.
+  unfold path_op, plaq_op. rewrite (primal_of_ptype a Ha), (primal_of_ptype q Hpq). rewrite pairs_wsum.
+  destruct (fst a mod 2 =? 1) eqn:Ea, (fst q mod 2 =? 1) eqn:Eq; cbn [xbit zbit andb]; rewrite ?xorb_false_l, ?xorb_false_r.
+  - rewrite ?xorb_false_l, ?xorb_false_r. apply path_overlap; auto. unfold same_type, ptype in *. lia.
+  - assert (E1 : zeqb2 q a = false) by (destruct a, q; unfold zeqb2; cbn [fst snd] in *; lia).
+    assert (E2 : zeqb2 q b = false) by (destruct Hab; destruct a, b, q; unfold zeqb2; cbn [fst snd] in *; lia).
+    now rewrite E1, E2.
+  - assert (E1 : zeqb2 q a = false) by (destruct a, q; unfold zeqb2; cbn [fst snd] in *; lia).
+    assert (E2 : zeqb2 q b = false) by (destruct Hab; destruct a, b, q; unfold zeqb2; cbn [fst snd] in *; lia).
+    now rewrite E1, E2.
+  - rewrite ?xorb_false_l, ?xorb_false_r. apply path_overlap; auto. unfold same_type, ptype in *. lia.
+Qed.
+
+(* C15, the whole syndrome *)
+Theorem planar_path_syndrome_all a b :
+  ptype a -> ptype b -> same_type a b -> instrip a -> instrip b ->
+  exists p, path rows cols a b (new_pauli rows cols) = Some p /\
+    syndrome_of (stabs (planar_code rows cols)) (p_to_bsf p) =
+    map (fun q => xorb (zeqb2 q a) (zeqb2 q b)) (plaquette_indices rows cols).
+Proof.
+  intros Ha Hb Hab Hsa Hsb.
+  destruct (translation_cases a b Ha Hb Hab) as (rs & cs & Ht & _).
+  exists (sites rows cols (path_op a) (path_sites a rs cs) (new_pauli rows cols)). split; [unfold path; now rewrite Ht|].
+  rewrite code_eq. cbn [stabs]. unfold syndrome_of. rewrite map_map. apply map_ext_in. intros q Hq.
+  destruct (planar_path_syndrome_bit a b q Ha Hb Hab Hsa Hsb Hq) as (p & Hp & Hbsp).
+  unfold path in Hp. rewrite Ht in Hp. injection Hp as <-. exact Hbsp.
+Qed.
+
+(* weight of a path never exceeds the decoder's distance (no hypothesis on the indices at all) *)
+Lemma path_op_not_I a : path_op a <> pI.
+Proof. unfold path_op. destruct (planar_is_primal a); discriminate. Qed.
+Theorem planar_path_weight_le a b p d :
+  path rows cols a b (new_pauli rows cols) = Some p -> distance rows cols a b = Some d ->
+  Z.of_nat (bsf_wt (p_to_bsf p)) <= d.
+Proof.
+  unfold path, distance. destruct (planar_translation rows cols a b) as [[rs cs]|]; [|discriminate].
+  intros Hp Hd. injection Hp as <-. injection Hd as <-.
+  change (p_to_bsf (sites rows cols (path_op a) (path_sites a rs cs) (new_pauli rows cols)))
+    with (gop inb fl N (path_op a) (path_sites a rs cs)).
+  pose proof (bsf_wt_gop_le inb fl N (path_op a) (path_sites a rs cs) (path_op_not_I a)) as H.
+  rewrite <- path_sites_length. lia.
+Qed.
+
+(* C15: the virtual plaquette of a real plaquette is just outside the nearer boundary of its own lattice
+   (primal: north/south, ties to north; dual: west/east, ties to west); it is of the same type, lies in the
+   strip and outside the lattice, so the path theorems above apply to it *)
+Theorem planar_virtual_nearest q : In q (plaquette_indices rows cols) ->
+  planar_virtual_plaquette_index rows cols q = Some
+    (if planar_is_primal q
+     then (if (fst q + 1) / 2 <=? (2 * rows - 1 - fst q) / 2 then (-1, snd q) else (2 * rows - 1, snd q))
+     else (if (snd q + 1) / 2 <=? (2 * cols - 1 - snd q) / 2 then (fst q, -1) else (fst q, 2 * cols - 1))).
+Proof.
+  intros Hq. apply in_plaquette_indices in Hq. destruct Hq as [Hq1 Hq2]. destruct q as [r c].
+  unfold planar_virtual_plaquette_index. rewrite Hq1. cbn [negb fst snd].
+  pose proof (proj2 (ptype_plaquette (r, c)) Hq1) as Hp. rewrite (primal_of_ptype _ Hp).
+  rewrite inb_unfold in Hq2. unfold ptype in Hp. cbn [fst snd] in *.
+  destruct (r mod 2 =? 1) eqn:E.
+  - replace (Z.abs (r - 1) <=? Z.abs (2 * rows - 3 - r)) with ((r + 1) / 2 <=? (2 * rows - 1 - r) / 2) by lia.
+    destruct ((r + 1) / 2 <=? (2 * rows - 1 - r) / 2); f_equal; f_equal; lia.
+  - replace (Z.abs (c - 1) <=? Z.abs (2 * cols - 3 - c)) with ((c + 1) / 2 <=? (2 * cols - 1 - c) / 2) by lia.
+    destruct ((c + 1) / 2 <=? (2 * cols - 1 - c) / 2); f_equal; f_equal; lia.
+Qed.
+Theorem planar_virtual_props q : In q (plaquette_indices rows cols) ->
+  exists v, planar_virtual_plaquette_index rows cols q = Some v /\
+    ptype v /\ same_type v q /\ instrip v /\ inb v = false /\ ptype q /\ instrip q.
+Proof.
+  intros Hq. rewrite (planar_virtual_nearest q Hq). eexists. split; [reflexivity|].
+  apply in_plaquette_indices in Hq. destruct Hq as [Hq1 Hq2].
+  pose proof (proj2 (ptype_plaquette q) Hq1) as Hp. rewrite (primal_of_ptype _ Hp).
+  destruct q as [r c]. rewrite inb_unfold in Hq2. unfold ptype, same_type, instrip in *. cbn [fst snd] in *.
+  destruct (r mod 2 =? 1) eqn:E.
+  - destruct ((r + 1) / 2 <=? (2 * rows - 1 - r) / 2); rewrite inb_unfold; cbn [fst snd]; lia.
+  - destruct ((c + 1) / 2 <=? (2 * cols - 1 - c) / 2); rewrite inb_unfold; cbn [fst snd]; lia.
+Qed.
+
+(* ---- weights of the logical operators; C08 upper bound ---- *)
+Lemma filter_all {A} (f : A -> bool) l : (forall a, In a l -> f a = true) -> filter f l = l.
+Proof. induction l as [|a l IH]; intros H; cbn; auto. rewrite H by (cbn; auto). f_equal. apply IH. intros; apply H; cbn; auto. Qed.
+
+Lemma sop_weight_nodup op L : op <> pI -> all_sites L -> (forall a, In a L -> inb a = true) -> NoDup L ->
+  bsf_wt (sop op L) = length L.
+Proof.
+  intros Hop HL Hin Hnd. change (sop op L) with (gop inb fl N op L).
+  rewrite bsf_wt_gop_nodup; auto using klt_sites.
+  - unfold keys. now rewrite map_length, filter_all.
+  - unfold keys. rewrite filter_all by auto. apply NoDup_map_inj_in; auto.
+    intros x y Hx Hy. apply fl_inj; split; auto.
+Qed.
+
+Theorem planar_logical_x_weight : Z.of_nat (bsf_wt lxop) = rows.
+Proof.
+  unfold lxop. rewrite sop_weight_nodup; try discriminate; auto using lx_sites_sites.
+  - rewrite lx_sites_eq, map_length, seq_length. lia.
+  - intros a Ha. rewrite lx_sites_eq in Ha. apply in_map_iff in Ha. destruct Ha as (i & <- & Hi). apply in_seq in Hi.
+    rewrite inb_unfold. cbn [fst snd]. lia.
+  - rewrite lx_sites_eq. apply NoDup_map_inj_in; [|apply seq_NoDup]. intros x y _ _ H. injection H. lia.
+Qed.
+Theorem planar_logical_z_weight : Z.of_nat (bsf_wt lzop) = cols.
+Proof.
+  unfold lzop. rewrite sop_weight_nodup; try discriminate; auto using lz_sites_sites.
+  - rewrite lz_sites_eq, map_length, seq_length. lia.
+  - intros a Ha. rewrite lz_sites_eq in Ha. apply in_map_iff in Ha. destruct Ha as (i & <- & Hi). apply in_seq in Hi.
+    rewrite inb_unfold. cbn [fst snd]. lia.
+  - rewrite lz_sites_eq. apply NoDup_map_inj_in; [|apply seq_NoDup]. intros x y _ _ H. injection H. lia.
+Qed.
+
+(* a product of stabilizers commutes with every operator that commutes with all stabilizers, so a logical that
+   anticommutes with the other logical is not a product of stabilizers *)
+Lemma bsp_zeros_l m l : length l = m -> Nat.even m = true -> bsp (zeros m) l = false.
+Proof.
+  intros HL Hev. rewrite <- HL. rewrite <- (xorv_self l), bsp_linear_l by reflexivity.
+  rewrite bsp_self_zero by now rewrite HL. reflexivity.
+Qed.
+Lemma bsp_xsum_zero m sub l : length l = m -> Nat.even m = true ->
+  (forall s, In s sub -> length s = m /\ bsp s l = false) -> bsp (xsum m sub) l = false.
+Proof.
+  intros HL Hev. induction sub as [|s sub IH]; intros H.
+  - now apply bsp_zeros_l.
+  - rewrite xsum_cons. destruct (H s ltac:(cbn; auto)) as [Hs1 Hs2].
+    assert (Hlen : length (xsum m sub) = m).
+    { apply xsum_len. apply Forall_forall. intros x Hx. apply H. cbn; auto. }
+    rewrite bsp_linear_l by congruence. rewrite Hs2, IH; [reflexivity|]. intros x Hx. apply H. cbn; auto.
+Qed.
+Lemma stab_length q : length (stab q) = (N + N)%nat.
+Proof. apply sop_length. Qed.
+Lemma even_NN : Nat.even (N + N) = true.
+Proof. replace (N + N)%nat with (2 * N)%nat by lia. apply Nat.even_spec. now exists N. Qed.
+
+Theorem planar_logical_x_nontrivial sub : (forall s, In s sub -> In s (stabs (planar_code rows cols))) ->
+  xsum (N + N) sub <> lxop.
+Proof.
+  intros Hsub Heq. destruct planar_logicals_anticommute as (H1 & _).
+  rewrite <- Heq in H1. rewrite bsp_xsum_zero in H1; [discriminate|apply sop_length|apply even_NN|].
+  intros s Hs. apply Hsub in Hs. rewrite code_eq in Hs. cbn [stabs] in Hs. apply in_map_iff in Hs.
+  destruct Hs as (q & <- & Hq). split; [apply stab_length|now apply planar_stabilizer_logical_z].
+Qed.
+Theorem planar_logical_z_nontrivial sub : (forall s, In s sub -> In s (stabs (planar_code rows cols))) ->
+  xsum (N + N) sub <> lzop.
+Proof.
+  intros Hsub Heq. destruct planar_logicals_anticommute as (_ & H2 & _).
+  rewrite <- Heq in H2. rewrite bsp_xsum_zero in H2; [discriminate|apply sop_length|apply even_NN|].
+  intros s Hs. apply Hsub in Hs. rewrite code_eq in Hs. cbn [stabs] in Hs. apply in_map_iff in Hs.
+  destruct Hs as (q & <- & Hq). split; [apply stab_length|now apply planar_stabilizer_logical_x].
+Qed.
+
+(* C08 upper bound, all sizes: the advertised d = min(rows, cols) is the weight of a supplied logical that commutes
+   with every stabilizer and is not a product of stabilizers; neither supplied logical is lighter than d *)
+Theorem planar_distance_upper :
+  let '(n, k, d) := planar_n_k_d rows cols in
+  d = Z.min rows cols /\ Z.of_nat (bsf_wt lxop) = rows /\ Z.of_nat (bsf_wt lzop) = cols /\
+  (Z.of_nat (bsf_wt lxop) = d \/ Z.of_nat (bsf_wt lzop) = d) /\
+  d <= Z.of_nat (bsf_wt lxop) /\ d <= Z.of_nat (bsf_wt lzop).
+Proof.
+  cbn. rewrite planar_logical_x_weight, planar_logical_z_weight. lia.
 Qed.
